@@ -149,6 +149,24 @@ def check(ctx: Ctx) -> None:
                               'equality compares attribute %r (%s) but %s does not serialise it: a JSON round trip '
                               'of an object with a non-default %s compares unequal'
                               % (a, compared[a], w.qualname, a), eq.path, eq.lineno, operand=a)
+    # ------------------------------------------------------------------ C17.g
+    from ..idioms import grouped_items_through_replacing_writer, replacing_writers
+    ctx.rule('C17.g', 'a reader never feeds the items of one stored GROUP (a list per key) through a writer that replaces the entry of the '
+                      'key (one-element list) when an appending sibling exists: only the last item of each group would survive the round trip',
+             floor=3)
+    rw = replacing_writers(M)
+    if 'add_result' not in rw:
+        ctx.error('C17.g: SimulationResults.add_result is no longer recognised as a replacing writer with an appending sibling (cannot tell)')
+    for path, cname, nkeys in PAIRS:
+        r = M.func(path, cname + '._from_dict')
+        ctx.instance('C17.g', r.qualname)
+        hits = list(grouped_items_through_replacing_writer(M, r))
+        ctx.obligation('C17.g', r.qualname, not hits, {'replacing_writers': sorted(rw), 'calls_in_nested_loops': [norm(h[0])[:60] for h in hits]},
+                       nontrivial=any(isinstance(x, (ast.For, ast.ListComp, ast.DictComp)) for x in ast.walk(r.node)))
+        for call, m, depth in hits[:1]:
+            ctx.violation('C17.g', r.qualname, '`%s` is called once per item of each stored group (loop depth %d), but %s REPLACES the entry of the '
+                          'key with a one-element list: a result list with several values comes back with only its last value'
+                          % (norm(call)[:50], depth, m.qualname), r.path, call.lineno, operand='replacing-writer:' + m.name)
     from ..dsf import auto_memo_check
     ctx.rule('C17.e', 'no auto-discovered lazily filled cache of the classes in the anchored modules can be stale at the exit of a public method (dependencies = what the fill expression reads, incl. mutating calls on held sub-objects)', floor=3)
     auto_memo_check(ctx, 'C17.e', [RES, PAR, SER])
